@@ -311,14 +311,13 @@ Definition same_value (v r : pyval) : bool :=
   | VOther => false
   end.
 
-(* the domain of the property: finite numbers, XML strings, valid dates, every duration *)
+(* the domain of the property: finite numbers (every finite Decimal: Typeddecproof.dec_text_roundtrip_lemma), XML strings, valid dates, every duration *)
 Definition float_repr_ok (r : str) : bool := match dec_of_text r with Some _ => true | None => false end.
 Definition dec_text_roundtrips (d : dec) : bool :=
   match dec_of_text (str_of_dec d) with Some d' => dec_eqb d d' | None => false end.
 Definition in_domain (v : pyval) : bool :=
   match v with
   | VFloat r => float_repr_ok r
-  | VDec d => dec_text_roundtrips d      (* Decimal(str(d)) == d with the same exponent: CPython's own round trip, evaluated on the model for this d *)
   | VStr s => xml_str s
   | VDate y m d => valid_date y m d
   | VDateTime d => valid_dt d
